@@ -19,3 +19,20 @@ Definition run_mk (l : list Z) : list Z :=
       [Z.of_N (calc_hash zob_real b1); threefold b1; zb (in_check b1 (stm b)); zb (in_check b1 (stm b1))]
   | _ => []
   end.
+
+(* stream "gen": board-in -> [#noisy; noisy...; #quiet; quiet...; #playable; playable...]  (exact order) *)
+From Chess3 Require Import Model.Movegen.
+Definition zlist (l : list N) : list Z := Z.of_nat (length l) :: map Z.of_N l.
+Definition run_gen (l : list Z) : list Z :=
+  match decode_board l with
+  | Some (b, _) => zlist (gen_noisy b) ++ zlist (gen_quiet b) ++ zlist (playable zob_real b)
+  | None => []
+  end.
+
+(* stream "ipl": board-in -> every encoding 0..32767 accepted by IsPseudoLegal, ascending *)
+Definition all_encodings : list N := map N.of_nat (seq 0 32768).
+Definition run_ipl (l : list Z) : list Z :=
+  match decode_board l with
+  | Some (b, _) => map Z.of_N (filter (is_pseudo_legal b) all_encodings)
+  | None => []
+  end.
